@@ -295,7 +295,9 @@ def check_programs(chk):
              "transport=rest,unknown-opt=1,python-gapic-bogus=2"),
             # the dependency's package is deeper than the API's root package: nothing of it may surface, not even as a
             # sub-package directory
-            ("deep-dependency", deep_dep_api(), ["acme/library/v1/lib.proto"], "transport=grpc")):
+            ("deep-dependency", deep_dep_api(), ["acme/library/v1/lib.proto"], "transport=grpc"),
+            # target files in the root package AND in a sub-package (layout differs: only the generic clauses are diffed)
+            ("root+sub-package", root_and_sub_api(), None, "transport=grpc+rest,autogen-snippets=false")):
         # expectations are computed from the descriptors BEFORE generation (API.build renames fd.name in place)
         import keyword
         all_names = [m.DESCRIPTOR.name for m in gen.DEP_MODS] + [fb.f.name for fb in files]
@@ -331,15 +333,26 @@ def check_programs(chk):
         pkgroot = posixpath.commonpath([n for n in names if "/types/" in n or "/services/" in n])
         target = [f for f in g.request.proto_file if f.name in g.request.file_to_generate]
         types_mods = sorted(posixpath.basename(n) for n in names if posixpath.dirname(n) == pkgroot + "/types" and not n.endswith("__init__.py"))
-        if types_mods != exp_types:
+        flat = label != "root+sub-package"
+        if flat and types_mods != exp_types:
             problems.append(f"types modules {types_mods} != {exp_types}")
         svc_dirs = sorted({n[len(pkgroot + '/services/'):].split("/")[0] for n in names
                            if n.startswith(pkgroot + "/services/") and n.count("/") > pkgroot.count("/") + 2})
-        if svc_dirs != exp_svcs:
+        if flat and svc_dirs != exp_svcs:
             problems.append(f"service packages {svc_dirs} != {exp_svcs}")
+        # one service package per service, wherever it lives
+        where = {}
+        for n in names:
+            parts = n.split("/")
+            if "services" in parts[:-1] and parts.index("services") + 1 < len(parts) - 1:
+                i_ = parts.index("services")
+                where.setdefault(parts[i_ + 1], set()).add("/".join(parts[:i_ + 2]))
+        for sname, dirs in sorted(where.items()):
+            if len(dirs) > 1 and not any("tests" in d_ or "samples" in d_ for d_ in dirs):
+                problems.append(f"service {sname} is emitted into {len(dirs)} packages: {sorted(dirs)}")
         extra = sorted({n[len(pkgroot) + 1:].split("/")[0] for n in names
                         if n.startswith(pkgroot + "/") and "/" in n[len(pkgroot) + 1:]} - {"types", "services"})
-        if extra:
+        if extra and flat:
             problems.append(f"unexpected directories under {pkgroot}: {extra} (files emitted for something that is not a target)")
         py_dirs = {posixpath.dirname(n) for n in names if n.endswith(".py") and n.startswith(pkgroot)}
         for d in py_dirs:
@@ -365,6 +378,18 @@ def unversioned_api():
     s = fb.service("Uv")
     fb.method(s, "Get", "Req", "Req", http=("get", "/v1/{name=x/*}"))
     return [fb]
+
+
+def root_and_sub_api():
+    root = gen.FileBuilder("google/example/sq/v1/lib.proto", "google.example.sq.v1")
+    root.message("Book", [("name", "string")])
+    s = root.service("Library")
+    root.method(s, "GetBook", "Book", "Book", http=("get", "/v1/{name=books/*}"))
+    adm = gen.FileBuilder("google/example/sq/v1/admin/admin.proto", "google.example.sq.v1.admin")
+    adm.message("Job", [("name", "string")])
+    a = adm.service("AdminService")
+    adm.method(a, "GetJob", "Job", "Job", http=("get", "/v1/{name=jobs/*}"))
+    return [root, adm]
 
 
 def deep_dep_api():
